@@ -1,0 +1,1462 @@
+//go:build verif
+
+// Contract blocks of the lemma functions in zz_lemmas_verif.go (comment-only).
+
+package dpt
+
+//@ func lemmaC06_DPT_1001(b []byte)
+//@   props C06
+//@   exact
+
+//@ func lemmaC07_DPT_1001(x DPT_1001)
+//@   props C07
+//@   exact
+
+//@ func lemmaC06_DPT_1002(b []byte)
+//@   props C06
+//@   exact
+
+//@ func lemmaC07_DPT_1002(x DPT_1002)
+//@   props C07
+//@   exact
+
+//@ func lemmaC06_DPT_1003(b []byte)
+//@   props C06
+//@   exact
+
+//@ func lemmaC07_DPT_1003(x DPT_1003)
+//@   props C07
+//@   exact
+
+//@ func lemmaC06_DPT_1004(b []byte)
+//@   props C06
+//@   exact
+
+//@ func lemmaC07_DPT_1004(x DPT_1004)
+//@   props C07
+//@   exact
+
+//@ func lemmaC06_DPT_1005(b []byte)
+//@   props C06
+//@   exact
+
+//@ func lemmaC07_DPT_1005(x DPT_1005)
+//@   props C07
+//@   exact
+
+//@ func lemmaC06_DPT_1006(b []byte)
+//@   props C06
+//@   exact
+
+//@ func lemmaC07_DPT_1006(x DPT_1006)
+//@   props C07
+//@   exact
+
+//@ func lemmaC06_DPT_1007(b []byte)
+//@   props C06
+//@   exact
+
+//@ func lemmaC07_DPT_1007(x DPT_1007)
+//@   props C07
+//@   exact
+
+//@ func lemmaC06_DPT_1008(b []byte)
+//@   props C06
+//@   exact
+
+//@ func lemmaC07_DPT_1008(x DPT_1008)
+//@   props C07
+//@   exact
+
+//@ func lemmaC06_DPT_1009(b []byte)
+//@   props C06
+//@   exact
+
+//@ func lemmaC07_DPT_1009(x DPT_1009)
+//@   props C07
+//@   exact
+
+//@ func lemmaC06_DPT_1010(b []byte)
+//@   props C06
+//@   exact
+
+//@ func lemmaC07_DPT_1010(x DPT_1010)
+//@   props C07
+//@   exact
+
+//@ func lemmaC06_DPT_1011(b []byte)
+//@   props C06
+//@   exact
+
+//@ func lemmaC07_DPT_1011(x DPT_1011)
+//@   props C07
+//@   exact
+
+//@ func lemmaC06_DPT_1012(b []byte)
+//@   props C06
+//@   exact
+
+//@ func lemmaC07_DPT_1012(x DPT_1012)
+//@   props C07
+//@   exact
+
+//@ func lemmaC06_DPT_1013(b []byte)
+//@   props C06
+//@   exact
+
+//@ func lemmaC07_DPT_1013(x DPT_1013)
+//@   props C07
+//@   exact
+
+//@ func lemmaC06_DPT_1014(b []byte)
+//@   props C06
+//@   exact
+
+//@ func lemmaC07_DPT_1014(x DPT_1014)
+//@   props C07
+//@   exact
+
+//@ func lemmaC06_DPT_1015(b []byte)
+//@   props C06
+//@   exact
+
+//@ func lemmaC07_DPT_1015(x DPT_1015)
+//@   props C07
+//@   exact
+
+//@ func lemmaC06_DPT_1016(b []byte)
+//@   props C06
+//@   exact
+
+//@ func lemmaC07_DPT_1016(x DPT_1016)
+//@   props C07
+//@   exact
+
+//@ func lemmaC06_DPT_1017(b []byte)
+//@   props C06
+//@   exact
+
+//@ func lemmaC07_DPT_1017(x DPT_1017)
+//@   props C07
+//@   exact
+
+//@ func lemmaC06_DPT_1018(b []byte)
+//@   props C06
+//@   exact
+
+//@ func lemmaC07_DPT_1018(x DPT_1018)
+//@   props C07
+//@   exact
+
+//@ func lemmaC06_DPT_1019(b []byte)
+//@   props C06
+//@   exact
+
+//@ func lemmaC07_DPT_1019(x DPT_1019)
+//@   props C07
+//@   exact
+
+//@ func lemmaC06_DPT_1021(b []byte)
+//@   props C06
+//@   exact
+
+//@ func lemmaC07_DPT_1021(x DPT_1021)
+//@   props C07
+//@   exact
+
+//@ func lemmaC06_DPT_1022(b []byte)
+//@   props C06
+//@   exact
+
+//@ func lemmaC07_DPT_1022(x DPT_1022)
+//@   props C07
+//@   exact
+
+//@ func lemmaC06_DPT_1023(b []byte)
+//@   props C06
+//@   exact
+
+//@ func lemmaC07_DPT_1023(x DPT_1023)
+//@   props C07
+//@   exact
+
+//@ func lemmaC06_DPT_1024(b []byte)
+//@   props C06
+//@   exact
+
+//@ func lemmaC07_DPT_1024(x DPT_1024)
+//@   props C07
+//@   exact
+
+//@ func lemmaC06_DPT_1100(b []byte)
+//@   props C06
+//@   exact
+
+//@ func lemmaC07_DPT_1100(x DPT_1100)
+//@   props C07
+//@   exact
+
+//@ func lemmaC06_DPT_5001(b []byte)
+//@   props C06
+//@   exact
+
+//@ func lemmaC07_DPT_5001(x DPT_5001)
+//@   props C07
+//@   exact
+
+//@ func lemmaC07mono_DPT_5001(x DPT_5001, y DPT_5001)
+//@   props C07
+//@   exact
+//@   timeout 120
+
+//@ func lemmaC06_DPT_5003(b []byte)
+//@   props C06
+//@   exact
+
+//@ func lemmaC07_DPT_5003(x DPT_5003)
+//@   props C07
+//@   exact
+
+//@ func lemmaC07mono_DPT_5003(x DPT_5003, y DPT_5003)
+//@   props C07
+//@   exact
+//@   timeout 120
+
+//@ func lemmaC06_DPT_5004(b []byte)
+//@   props C06
+//@   exact
+
+//@ func lemmaC07_DPT_5004(x DPT_5004)
+//@   props C07
+//@   exact
+
+//@ func lemmaC06_DPT_5005(b []byte)
+//@   props C06
+//@   exact
+
+//@ func lemmaC07_DPT_5005(x DPT_5005)
+//@   props C07
+//@   exact
+
+//@ func lemmaC06_DPT_6010(b []byte)
+//@   props C06
+//@   exact
+
+//@ func lemmaC07_DPT_6010(x DPT_6010)
+//@   props C07
+//@   exact
+
+//@ func lemmaC06_DPT_7001(b []byte)
+//@   props C06
+//@   exact
+
+//@ func lemmaC07_DPT_7001(x DPT_7001)
+//@   props C07
+//@   exact
+
+//@ func lemmaC06_DPT_7002(b []byte)
+//@   props C06
+//@   exact
+
+//@ func lemmaC07_DPT_7002(x DPT_7002)
+//@   props C07
+//@   exact
+
+//@ func lemmaC06_DPT_7003(b []byte)
+//@   props C06
+//@   exact
+
+//@ func lemmaC07_DPT_7003(x DPT_7003)
+//@   props C07
+//@   exact
+
+//@ func lemmaC06_DPT_7004(b []byte)
+//@   props C06
+//@   exact
+
+//@ func lemmaC07_DPT_7004(x DPT_7004)
+//@   props C07
+//@   exact
+
+//@ func lemmaC06_DPT_7005(b []byte)
+//@   props C06
+//@   exact
+
+//@ func lemmaC07_DPT_7005(x DPT_7005)
+//@   props C07
+//@   exact
+
+//@ func lemmaC06_DPT_7006(b []byte)
+//@   props C06
+//@   exact
+
+//@ func lemmaC07_DPT_7006(x DPT_7006)
+//@   props C07
+//@   exact
+
+//@ func lemmaC06_DPT_7007(b []byte)
+//@   props C06
+//@   exact
+
+//@ func lemmaC07_DPT_7007(x DPT_7007)
+//@   props C07
+//@   exact
+
+//@ func lemmaC06_DPT_7010(b []byte)
+//@   props C06
+//@   exact
+
+//@ func lemmaC07_DPT_7010(x DPT_7010)
+//@   props C07
+//@   exact
+
+//@ func lemmaC06_DPT_7011(b []byte)
+//@   props C06
+//@   exact
+
+//@ func lemmaC07_DPT_7011(x DPT_7011)
+//@   props C07
+//@   exact
+
+//@ func lemmaC06_DPT_7012(b []byte)
+//@   props C06
+//@   exact
+
+//@ func lemmaC07_DPT_7012(x DPT_7012)
+//@   props C07
+//@   exact
+
+//@ func lemmaC06_DPT_7013(b []byte)
+//@   props C06
+//@   exact
+
+//@ func lemmaC07_DPT_7013(x DPT_7013)
+//@   props C07
+//@   exact
+
+//@ func lemmaC06_DPT_7600(b []byte)
+//@   props C06
+//@   exact
+
+//@ func lemmaC07_DPT_7600(x DPT_7600)
+//@   props C07
+//@   exact
+
+//@ func lemmaC06_DPT_8001(b []byte)
+//@   props C06
+//@   exact
+
+//@ func lemmaC07_DPT_8001(x DPT_8001)
+//@   props C07
+//@   exact
+
+//@ func lemmaC06_DPT_8002(b []byte)
+//@   props C06
+//@   exact
+
+//@ func lemmaC07_DPT_8002(x DPT_8002)
+//@   props C07
+//@   exact
+
+//@ func lemmaC06_DPT_8003(b []byte)
+//@   props C06
+//@   exact
+
+//@ func lemmaC07_DPT_8003(x DPT_8003)
+//@   props C07
+//@   exact
+
+//@ func lemmaC07mono_DPT_8003(x DPT_8003, y DPT_8003)
+//@   props C07
+//@   exact
+//@   timeout 120
+
+//@ func lemmaC06_DPT_8004(b []byte)
+//@   props C06
+//@   exact
+
+//@ func lemmaC07_DPT_8004(x DPT_8004)
+//@   props C07
+//@   exact
+
+//@ func lemmaC07mono_DPT_8004(x DPT_8004, y DPT_8004)
+//@   props C07
+//@   exact
+//@   timeout 120
+
+//@ func lemmaC06_DPT_8005(b []byte)
+//@   props C06
+//@   exact
+
+//@ func lemmaC07_DPT_8005(x DPT_8005)
+//@   props C07
+//@   exact
+
+//@ func lemmaC06_DPT_8006(b []byte)
+//@   props C06
+//@   exact
+
+//@ func lemmaC07_DPT_8006(x DPT_8006)
+//@   props C07
+//@   exact
+
+//@ func lemmaC06_DPT_8007(b []byte)
+//@   props C06
+//@   exact
+
+//@ func lemmaC07_DPT_8007(x DPT_8007)
+//@   props C07
+//@   exact
+
+//@ func lemmaC06_DPT_8010(b []byte)
+//@   props C06
+//@   exact
+
+//@ func lemmaC07_DPT_8010(x DPT_8010)
+//@   props C07
+//@   exact
+
+//@ func lemmaC07mono_DPT_8010(x DPT_8010, y DPT_8010)
+//@   props C07
+//@   exact
+//@   timeout 120
+
+//@ func lemmaC06_DPT_8011(b []byte)
+//@   props C06
+//@   exact
+
+//@ func lemmaC07_DPT_8011(x DPT_8011)
+//@   props C07
+//@   exact
+
+//@ func lemmaC06_DPT_9001(b []byte)
+//@   props C06
+//@   exact
+//@   timeout 120
+
+//@ func lemmaC07_DPT_9001(x DPT_9001)
+//@   props C07
+//@   exact
+//@   timeout 120
+
+//@ func lemmaC06_DPT_9002(b []byte)
+//@   props C06
+//@   exact
+//@   timeout 120
+
+//@ func lemmaC07_DPT_9002(x DPT_9002)
+//@   props C07
+//@   exact
+//@   timeout 120
+
+//@ func lemmaC06_DPT_9003(b []byte)
+//@   props C06
+//@   exact
+//@   timeout 120
+
+//@ func lemmaC07_DPT_9003(x DPT_9003)
+//@   props C07
+//@   exact
+//@   timeout 120
+
+//@ func lemmaC06_DPT_9004(b []byte)
+//@   props C06
+//@   exact
+//@   timeout 120
+
+//@ func lemmaC07_DPT_9004(x DPT_9004)
+//@   props C07
+//@   exact
+//@   timeout 120
+
+//@ func lemmaC06_DPT_9005(b []byte)
+//@   props C06
+//@   exact
+//@   timeout 120
+
+//@ func lemmaC07_DPT_9005(x DPT_9005)
+//@   props C07
+//@   exact
+//@   timeout 120
+
+//@ func lemmaC06_DPT_9006(b []byte)
+//@   props C06
+//@   exact
+//@   timeout 120
+
+//@ func lemmaC07_DPT_9006(x DPT_9006)
+//@   props C07
+//@   exact
+//@   timeout 120
+
+//@ func lemmaC06_DPT_9007(b []byte)
+//@   props C06
+//@   exact
+//@   timeout 120
+
+//@ func lemmaC07_DPT_9007(x DPT_9007)
+//@   props C07
+//@   exact
+//@   timeout 120
+
+//@ func lemmaC06_DPT_9008(b []byte)
+//@   props C06
+//@   exact
+//@   timeout 120
+
+//@ func lemmaC07_DPT_9008(x DPT_9008)
+//@   props C07
+//@   exact
+//@   timeout 120
+
+//@ func lemmaC06_DPT_9010(b []byte)
+//@   props C06
+//@   exact
+//@   timeout 120
+
+//@ func lemmaC07_DPT_9010(x DPT_9010)
+//@   props C07
+//@   exact
+//@   timeout 120
+
+//@ func lemmaC06_DPT_9011(b []byte)
+//@   props C06
+//@   exact
+//@   timeout 120
+
+//@ func lemmaC07_DPT_9011(x DPT_9011)
+//@   props C07
+//@   exact
+//@   timeout 120
+
+//@ func lemmaC06_DPT_9020(b []byte)
+//@   props C06
+//@   exact
+//@   timeout 120
+
+//@ func lemmaC07_DPT_9020(x DPT_9020)
+//@   props C07
+//@   exact
+//@   timeout 120
+
+//@ func lemmaC06_DPT_9021(b []byte)
+//@   props C06
+//@   exact
+//@   timeout 120
+
+//@ func lemmaC07_DPT_9021(x DPT_9021)
+//@   props C07
+//@   exact
+//@   timeout 120
+
+//@ func lemmaC06_DPT_9022(b []byte)
+//@   props C06
+//@   exact
+//@   timeout 120
+
+//@ func lemmaC07_DPT_9022(x DPT_9022)
+//@   props C07
+//@   exact
+//@   timeout 120
+
+//@ func lemmaC06_DPT_9023(b []byte)
+//@   props C06
+//@   exact
+//@   timeout 120
+
+//@ func lemmaC07_DPT_9023(x DPT_9023)
+//@   props C07
+//@   exact
+//@   timeout 120
+
+//@ func lemmaC06_DPT_9024(b []byte)
+//@   props C06
+//@   exact
+//@   timeout 120
+
+//@ func lemmaC07_DPT_9024(x DPT_9024)
+//@   props C07
+//@   exact
+//@   timeout 120
+
+//@ func lemmaC06_DPT_9025(b []byte)
+//@   props C06
+//@   exact
+//@   timeout 120
+
+//@ func lemmaC07_DPT_9025(x DPT_9025)
+//@   props C07
+//@   exact
+//@   timeout 120
+
+//@ func lemmaC06_DPT_9026(b []byte)
+//@   props C06
+//@   exact
+//@   timeout 120
+
+//@ func lemmaC07_DPT_9026(x DPT_9026)
+//@   props C07
+//@   exact
+//@   timeout 120
+
+//@ func lemmaC06_DPT_9027(b []byte)
+//@   props C06
+//@   exact
+//@   timeout 120
+
+//@ func lemmaC07_DPT_9027(x DPT_9027)
+//@   props C07
+//@   exact
+//@   timeout 120
+
+//@ func lemmaC06_DPT_9028(b []byte)
+//@   props C06
+//@   exact
+//@   timeout 120
+
+//@ func lemmaC07_DPT_9028(x DPT_9028)
+//@   props C07
+//@   exact
+//@   timeout 120
+
+//@ func lemmaC06_DPT_9029(b []byte)
+//@   props C06
+//@   exact
+//@   timeout 120
+
+//@ func lemmaC07_DPT_9029(x DPT_9029)
+//@   props C07
+//@   exact
+//@   timeout 120
+
+//@ func lemmaC06_DPT_10001(b []byte)
+//@   props C06
+//@   exact
+
+//@ func lemmaC07_DPT_10001(x DPT_10001)
+//@   props C07
+//@   exact
+
+//@ func lemmaC06_DPT_11001(b []byte)
+//@   props C06
+//@   exact
+
+//@ func lemmaC07_DPT_11001(x DPT_11001)
+//@   props C07
+//@   exact
+
+//@ func lemmaC06_DPT_12001(b []byte)
+//@   props C06
+//@   exact
+
+//@ func lemmaC07_DPT_12001(x DPT_12001)
+//@   props C07
+//@   exact
+
+//@ func lemmaC06_DPT_13001(b []byte)
+//@   props C06
+//@   exact
+
+//@ func lemmaC07_DPT_13001(x DPT_13001)
+//@   props C07
+//@   exact
+
+//@ func lemmaC06_DPT_13002(b []byte)
+//@   props C06
+//@   exact
+
+//@ func lemmaC07_DPT_13002(x DPT_13002)
+//@   props C07
+//@   exact
+
+//@ func lemmaC06_DPT_13010(b []byte)
+//@   props C06
+//@   exact
+
+//@ func lemmaC07_DPT_13010(x DPT_13010)
+//@   props C07
+//@   exact
+
+//@ func lemmaC06_DPT_13011(b []byte)
+//@   props C06
+//@   exact
+
+//@ func lemmaC07_DPT_13011(x DPT_13011)
+//@   props C07
+//@   exact
+
+//@ func lemmaC06_DPT_13012(b []byte)
+//@   props C06
+//@   exact
+
+//@ func lemmaC07_DPT_13012(x DPT_13012)
+//@   props C07
+//@   exact
+
+//@ func lemmaC06_DPT_13013(b []byte)
+//@   props C06
+//@   exact
+
+//@ func lemmaC07_DPT_13013(x DPT_13013)
+//@   props C07
+//@   exact
+
+//@ func lemmaC06_DPT_13014(b []byte)
+//@   props C06
+//@   exact
+
+//@ func lemmaC07_DPT_13014(x DPT_13014)
+//@   props C07
+//@   exact
+
+//@ func lemmaC06_DPT_13015(b []byte)
+//@   props C06
+//@   exact
+
+//@ func lemmaC07_DPT_13015(x DPT_13015)
+//@   props C07
+//@   exact
+
+//@ func lemmaC06_DPT_13016(b []byte)
+//@   props C06
+//@   exact
+
+//@ func lemmaC07_DPT_13016(x DPT_13016)
+//@   props C07
+//@   exact
+
+//@ func lemmaC06_DPT_13100(b []byte)
+//@   props C06
+//@   exact
+
+//@ func lemmaC07_DPT_13100(x DPT_13100)
+//@   props C07
+//@   exact
+
+//@ func lemmaC06_DPT_14000(b []byte)
+//@   props C06
+//@   exact
+
+//@ func lemmaC07_DPT_14000(x DPT_14000)
+//@   props C07
+//@   exact
+
+//@ func lemmaC06_DPT_14001(b []byte)
+//@   props C06
+//@   exact
+
+//@ func lemmaC07_DPT_14001(x DPT_14001)
+//@   props C07
+//@   exact
+
+//@ func lemmaC06_DPT_14002(b []byte)
+//@   props C06
+//@   exact
+
+//@ func lemmaC07_DPT_14002(x DPT_14002)
+//@   props C07
+//@   exact
+
+//@ func lemmaC06_DPT_14003(b []byte)
+//@   props C06
+//@   exact
+
+//@ func lemmaC07_DPT_14003(x DPT_14003)
+//@   props C07
+//@   exact
+
+//@ func lemmaC06_DPT_14004(b []byte)
+//@   props C06
+//@   exact
+
+//@ func lemmaC07_DPT_14004(x DPT_14004)
+//@   props C07
+//@   exact
+
+//@ func lemmaC06_DPT_14005(b []byte)
+//@   props C06
+//@   exact
+
+//@ func lemmaC07_DPT_14005(x DPT_14005)
+//@   props C07
+//@   exact
+
+//@ func lemmaC06_DPT_14006(b []byte)
+//@   props C06
+//@   exact
+
+//@ func lemmaC07_DPT_14006(x DPT_14006)
+//@   props C07
+//@   exact
+
+//@ func lemmaC06_DPT_14007(b []byte)
+//@   props C06
+//@   exact
+
+//@ func lemmaC07_DPT_14007(x DPT_14007)
+//@   props C07
+//@   exact
+
+//@ func lemmaC06_DPT_14008(b []byte)
+//@   props C06
+//@   exact
+
+//@ func lemmaC07_DPT_14008(x DPT_14008)
+//@   props C07
+//@   exact
+
+//@ func lemmaC06_DPT_14009(b []byte)
+//@   props C06
+//@   exact
+
+//@ func lemmaC07_DPT_14009(x DPT_14009)
+//@   props C07
+//@   exact
+
+//@ func lemmaC06_DPT_14010(b []byte)
+//@   props C06
+//@   exact
+
+//@ func lemmaC07_DPT_14010(x DPT_14010)
+//@   props C07
+//@   exact
+
+//@ func lemmaC06_DPT_14011(b []byte)
+//@   props C06
+//@   exact
+
+//@ func lemmaC07_DPT_14011(x DPT_14011)
+//@   props C07
+//@   exact
+
+//@ func lemmaC06_DPT_14012(b []byte)
+//@   props C06
+//@   exact
+
+//@ func lemmaC07_DPT_14012(x DPT_14012)
+//@   props C07
+//@   exact
+
+//@ func lemmaC06_DPT_14013(b []byte)
+//@   props C06
+//@   exact
+
+//@ func lemmaC07_DPT_14013(x DPT_14013)
+//@   props C07
+//@   exact
+
+//@ func lemmaC06_DPT_14014(b []byte)
+//@   props C06
+//@   exact
+
+//@ func lemmaC07_DPT_14014(x DPT_14014)
+//@   props C07
+//@   exact
+
+//@ func lemmaC06_DPT_14015(b []byte)
+//@   props C06
+//@   exact
+
+//@ func lemmaC07_DPT_14015(x DPT_14015)
+//@   props C07
+//@   exact
+
+//@ func lemmaC06_DPT_14016(b []byte)
+//@   props C06
+//@   exact
+
+//@ func lemmaC07_DPT_14016(x DPT_14016)
+//@   props C07
+//@   exact
+
+//@ func lemmaC06_DPT_14017(b []byte)
+//@   props C06
+//@   exact
+
+//@ func lemmaC07_DPT_14017(x DPT_14017)
+//@   props C07
+//@   exact
+
+//@ func lemmaC06_DPT_14018(b []byte)
+//@   props C06
+//@   exact
+
+//@ func lemmaC07_DPT_14018(x DPT_14018)
+//@   props C07
+//@   exact
+
+//@ func lemmaC06_DPT_14019(b []byte)
+//@   props C06
+//@   exact
+
+//@ func lemmaC07_DPT_14019(x DPT_14019)
+//@   props C07
+//@   exact
+
+//@ func lemmaC06_DPT_14020(b []byte)
+//@   props C06
+//@   exact
+
+//@ func lemmaC07_DPT_14020(x DPT_14020)
+//@   props C07
+//@   exact
+
+//@ func lemmaC06_DPT_14021(b []byte)
+//@   props C06
+//@   exact
+
+//@ func lemmaC07_DPT_14021(x DPT_14021)
+//@   props C07
+//@   exact
+
+//@ func lemmaC06_DPT_14022(b []byte)
+//@   props C06
+//@   exact
+
+//@ func lemmaC07_DPT_14022(x DPT_14022)
+//@   props C07
+//@   exact
+
+//@ func lemmaC06_DPT_14023(b []byte)
+//@   props C06
+//@   exact
+
+//@ func lemmaC07_DPT_14023(x DPT_14023)
+//@   props C07
+//@   exact
+
+//@ func lemmaC06_DPT_14024(b []byte)
+//@   props C06
+//@   exact
+
+//@ func lemmaC07_DPT_14024(x DPT_14024)
+//@   props C07
+//@   exact
+
+//@ func lemmaC06_DPT_14025(b []byte)
+//@   props C06
+//@   exact
+
+//@ func lemmaC07_DPT_14025(x DPT_14025)
+//@   props C07
+//@   exact
+
+//@ func lemmaC06_DPT_14026(b []byte)
+//@   props C06
+//@   exact
+
+//@ func lemmaC07_DPT_14026(x DPT_14026)
+//@   props C07
+//@   exact
+
+//@ func lemmaC06_DPT_14027(b []byte)
+//@   props C06
+//@   exact
+
+//@ func lemmaC07_DPT_14027(x DPT_14027)
+//@   props C07
+//@   exact
+
+//@ func lemmaC06_DPT_14028(b []byte)
+//@   props C06
+//@   exact
+
+//@ func lemmaC07_DPT_14028(x DPT_14028)
+//@   props C07
+//@   exact
+
+//@ func lemmaC06_DPT_14029(b []byte)
+//@   props C06
+//@   exact
+
+//@ func lemmaC07_DPT_14029(x DPT_14029)
+//@   props C07
+//@   exact
+
+//@ func lemmaC06_DPT_14030(b []byte)
+//@   props C06
+//@   exact
+
+//@ func lemmaC07_DPT_14030(x DPT_14030)
+//@   props C07
+//@   exact
+
+//@ func lemmaC06_DPT_14031(b []byte)
+//@   props C06
+//@   exact
+
+//@ func lemmaC07_DPT_14031(x DPT_14031)
+//@   props C07
+//@   exact
+
+//@ func lemmaC06_DPT_14032(b []byte)
+//@   props C06
+//@   exact
+
+//@ func lemmaC07_DPT_14032(x DPT_14032)
+//@   props C07
+//@   exact
+
+//@ func lemmaC06_DPT_14033(b []byte)
+//@   props C06
+//@   exact
+
+//@ func lemmaC07_DPT_14033(x DPT_14033)
+//@   props C07
+//@   exact
+
+//@ func lemmaC06_DPT_14034(b []byte)
+//@   props C06
+//@   exact
+
+//@ func lemmaC07_DPT_14034(x DPT_14034)
+//@   props C07
+//@   exact
+
+//@ func lemmaC06_DPT_14035(b []byte)
+//@   props C06
+//@   exact
+
+//@ func lemmaC07_DPT_14035(x DPT_14035)
+//@   props C07
+//@   exact
+
+//@ func lemmaC06_DPT_14036(b []byte)
+//@   props C06
+//@   exact
+
+//@ func lemmaC07_DPT_14036(x DPT_14036)
+//@   props C07
+//@   exact
+
+//@ func lemmaC06_DPT_14037(b []byte)
+//@   props C06
+//@   exact
+
+//@ func lemmaC07_DPT_14037(x DPT_14037)
+//@   props C07
+//@   exact
+
+//@ func lemmaC06_DPT_14038(b []byte)
+//@   props C06
+//@   exact
+
+//@ func lemmaC07_DPT_14038(x DPT_14038)
+//@   props C07
+//@   exact
+
+//@ func lemmaC06_DPT_14039(b []byte)
+//@   props C06
+//@   exact
+
+//@ func lemmaC07_DPT_14039(x DPT_14039)
+//@   props C07
+//@   exact
+
+//@ func lemmaC06_DPT_14040(b []byte)
+//@   props C06
+//@   exact
+
+//@ func lemmaC07_DPT_14040(x DPT_14040)
+//@   props C07
+//@   exact
+
+//@ func lemmaC06_DPT_14041(b []byte)
+//@   props C06
+//@   exact
+
+//@ func lemmaC07_DPT_14041(x DPT_14041)
+//@   props C07
+//@   exact
+
+//@ func lemmaC06_DPT_14042(b []byte)
+//@   props C06
+//@   exact
+
+//@ func lemmaC07_DPT_14042(x DPT_14042)
+//@   props C07
+//@   exact
+
+//@ func lemmaC06_DPT_14043(b []byte)
+//@   props C06
+//@   exact
+
+//@ func lemmaC07_DPT_14043(x DPT_14043)
+//@   props C07
+//@   exact
+
+//@ func lemmaC06_DPT_14044(b []byte)
+//@   props C06
+//@   exact
+
+//@ func lemmaC07_DPT_14044(x DPT_14044)
+//@   props C07
+//@   exact
+
+//@ func lemmaC06_DPT_14045(b []byte)
+//@   props C06
+//@   exact
+
+//@ func lemmaC07_DPT_14045(x DPT_14045)
+//@   props C07
+//@   exact
+
+//@ func lemmaC06_DPT_14046(b []byte)
+//@   props C06
+//@   exact
+
+//@ func lemmaC07_DPT_14046(x DPT_14046)
+//@   props C07
+//@   exact
+
+//@ func lemmaC06_DPT_14047(b []byte)
+//@   props C06
+//@   exact
+
+//@ func lemmaC07_DPT_14047(x DPT_14047)
+//@   props C07
+//@   exact
+
+//@ func lemmaC06_DPT_14048(b []byte)
+//@   props C06
+//@   exact
+
+//@ func lemmaC07_DPT_14048(x DPT_14048)
+//@   props C07
+//@   exact
+
+//@ func lemmaC06_DPT_14049(b []byte)
+//@   props C06
+//@   exact
+
+//@ func lemmaC07_DPT_14049(x DPT_14049)
+//@   props C07
+//@   exact
+
+//@ func lemmaC06_DPT_14050(b []byte)
+//@   props C06
+//@   exact
+
+//@ func lemmaC07_DPT_14050(x DPT_14050)
+//@   props C07
+//@   exact
+
+//@ func lemmaC06_DPT_14051(b []byte)
+//@   props C06
+//@   exact
+
+//@ func lemmaC07_DPT_14051(x DPT_14051)
+//@   props C07
+//@   exact
+
+//@ func lemmaC06_DPT_14052(b []byte)
+//@   props C06
+//@   exact
+
+//@ func lemmaC07_DPT_14052(x DPT_14052)
+//@   props C07
+//@   exact
+
+//@ func lemmaC06_DPT_14053(b []byte)
+//@   props C06
+//@   exact
+
+//@ func lemmaC07_DPT_14053(x DPT_14053)
+//@   props C07
+//@   exact
+
+//@ func lemmaC06_DPT_14054(b []byte)
+//@   props C06
+//@   exact
+
+//@ func lemmaC07_DPT_14054(x DPT_14054)
+//@   props C07
+//@   exact
+
+//@ func lemmaC06_DPT_14055(b []byte)
+//@   props C06
+//@   exact
+
+//@ func lemmaC07_DPT_14055(x DPT_14055)
+//@   props C07
+//@   exact
+
+//@ func lemmaC06_DPT_14056(b []byte)
+//@   props C06
+//@   exact
+
+//@ func lemmaC07_DPT_14056(x DPT_14056)
+//@   props C07
+//@   exact
+
+//@ func lemmaC06_DPT_14057(b []byte)
+//@   props C06
+//@   exact
+
+//@ func lemmaC07_DPT_14057(x DPT_14057)
+//@   props C07
+//@   exact
+
+//@ func lemmaC06_DPT_14058(b []byte)
+//@   props C06
+//@   exact
+
+//@ func lemmaC07_DPT_14058(x DPT_14058)
+//@   props C07
+//@   exact
+
+//@ func lemmaC06_DPT_14059(b []byte)
+//@   props C06
+//@   exact
+
+//@ func lemmaC07_DPT_14059(x DPT_14059)
+//@   props C07
+//@   exact
+
+//@ func lemmaC06_DPT_14060(b []byte)
+//@   props C06
+//@   exact
+
+//@ func lemmaC07_DPT_14060(x DPT_14060)
+//@   props C07
+//@   exact
+
+//@ func lemmaC06_DPT_14061(b []byte)
+//@   props C06
+//@   exact
+
+//@ func lemmaC07_DPT_14061(x DPT_14061)
+//@   props C07
+//@   exact
+
+//@ func lemmaC06_DPT_14062(b []byte)
+//@   props C06
+//@   exact
+
+//@ func lemmaC07_DPT_14062(x DPT_14062)
+//@   props C07
+//@   exact
+
+//@ func lemmaC06_DPT_14063(b []byte)
+//@   props C06
+//@   exact
+
+//@ func lemmaC07_DPT_14063(x DPT_14063)
+//@   props C07
+//@   exact
+
+//@ func lemmaC06_DPT_14064(b []byte)
+//@   props C06
+//@   exact
+
+//@ func lemmaC07_DPT_14064(x DPT_14064)
+//@   props C07
+//@   exact
+
+//@ func lemmaC06_DPT_14065(b []byte)
+//@   props C06
+//@   exact
+
+//@ func lemmaC07_DPT_14065(x DPT_14065)
+//@   props C07
+//@   exact
+
+//@ func lemmaC06_DPT_14066(b []byte)
+//@   props C06
+//@   exact
+
+//@ func lemmaC07_DPT_14066(x DPT_14066)
+//@   props C07
+//@   exact
+
+//@ func lemmaC06_DPT_14067(b []byte)
+//@   props C06
+//@   exact
+
+//@ func lemmaC07_DPT_14067(x DPT_14067)
+//@   props C07
+//@   exact
+
+//@ func lemmaC06_DPT_14068(b []byte)
+//@   props C06
+//@   exact
+
+//@ func lemmaC07_DPT_14068(x DPT_14068)
+//@   props C07
+//@   exact
+
+//@ func lemmaC06_DPT_14069(b []byte)
+//@   props C06
+//@   exact
+
+//@ func lemmaC07_DPT_14069(x DPT_14069)
+//@   props C07
+//@   exact
+
+//@ func lemmaC06_DPT_14070(b []byte)
+//@   props C06
+//@   exact
+
+//@ func lemmaC07_DPT_14070(x DPT_14070)
+//@   props C07
+//@   exact
+
+//@ func lemmaC06_DPT_14071(b []byte)
+//@   props C06
+//@   exact
+
+//@ func lemmaC07_DPT_14071(x DPT_14071)
+//@   props C07
+//@   exact
+
+//@ func lemmaC06_DPT_14072(b []byte)
+//@   props C06
+//@   exact
+
+//@ func lemmaC07_DPT_14072(x DPT_14072)
+//@   props C07
+//@   exact
+
+//@ func lemmaC06_DPT_14073(b []byte)
+//@   props C06
+//@   exact
+
+//@ func lemmaC07_DPT_14073(x DPT_14073)
+//@   props C07
+//@   exact
+
+//@ func lemmaC06_DPT_14074(b []byte)
+//@   props C06
+//@   exact
+
+//@ func lemmaC07_DPT_14074(x DPT_14074)
+//@   props C07
+//@   exact
+
+//@ func lemmaC06_DPT_14075(b []byte)
+//@   props C06
+//@   exact
+
+//@ func lemmaC07_DPT_14075(x DPT_14075)
+//@   props C07
+//@   exact
+
+//@ func lemmaC06_DPT_14076(b []byte)
+//@   props C06
+//@   exact
+
+//@ func lemmaC07_DPT_14076(x DPT_14076)
+//@   props C07
+//@   exact
+
+//@ func lemmaC06_DPT_14077(b []byte)
+//@   props C06
+//@   exact
+
+//@ func lemmaC07_DPT_14077(x DPT_14077)
+//@   props C07
+//@   exact
+
+//@ func lemmaC06_DPT_14078(b []byte)
+//@   props C06
+//@   exact
+
+//@ func lemmaC07_DPT_14078(x DPT_14078)
+//@   props C07
+//@   exact
+
+//@ func lemmaC06_DPT_14079(b []byte)
+//@   props C06
+//@   exact
+
+//@ func lemmaC07_DPT_14079(x DPT_14079)
+//@   props C07
+//@   exact
+
+//@ func lemmaC06_DPT_141200(b []byte)
+//@   props C06
+//@   exact
+
+//@ func lemmaC07_DPT_141200(x DPT_141200)
+//@   props C07
+//@   exact
+
+//@ func lemmaC06_DPT_16000(b []byte)
+//@   props C06
+//@   exact
+
+//@ func lemmaC07_DPT_16000(x DPT_16000)
+//@   props C07
+//@   exact
+
+//@ func lemmaC06_DPT_16001(b []byte)
+//@   props C06
+//@   exact
+
+//@ func lemmaC07_DPT_16001(x DPT_16001)
+//@   props C07
+//@   exact
+
+//@ func lemmaC06_DPT_17001(b []byte)
+//@   props C06
+//@   exact
+
+//@ func lemmaC07_DPT_17001(x DPT_17001)
+//@   props C07
+//@   exact
+
+//@ func lemmaC06_DPT_18001(b []byte)
+//@   props C06
+//@   exact
+
+//@ func lemmaC07_DPT_18001(x DPT_18001)
+//@   props C07
+//@   exact
+
+//@ func lemmaC06_DPT_20102(b []byte)
+//@   props C06
+//@   exact
+
+//@ func lemmaC07_DPT_20102(x DPT_20102)
+//@   props C07
+//@   exact
+
+//@ func lemmaC06_DPT_20105(b []byte)
+//@   props C06
+//@   exact
+
+//@ func lemmaC07_DPT_20105(x DPT_20105)
+//@   props C07
+//@   exact
+
+//@ func lemmaC06_DPT_28001(b []byte)
+//@   props C06
+//@   exact
+
+//@ func lemmaC07_DPT_28001(x DPT_28001)
+//@   props C07
+//@   exact
+
+//@ func lemmaC06_DPT_232600(b []byte)
+//@   props C06
+//@   exact
+
+//@ func lemmaC07_DPT_232600(x DPT_232600)
+//@   props C07
+//@   exact
+
+//@ func lemmaC06_DPT_242600(b []byte)
+//@   props C06
+//@   exact
+
+//@ func lemmaC07_DPT_242600(x DPT_242600)
+//@   props C07
+//@   exact
+
+//@ func lemmaC06_DPT_251600(b []byte)
+//@   props C06
+//@   exact
+
+//@ func lemmaC07_DPT_251600(x DPT_251600)
+//@   props C07
+//@   exact
